@@ -233,6 +233,17 @@ def compare(members, got):
     # extraction into a directory (skipped when a link target is absolute or climbs: refusing those is policy, C03)
     risky = any(m["kind"] == "symlink" and (m["data"].startswith(b"/") or b".." in m["data"].split(b"/")) for m in members)
     dup = len(set(want_names)) != len(want_names) or any(w is None for w in want_names)
+    if not dup:
+        # a file system cannot hold both 'm' (a file or link) and 'm/x': such member lists are valid archives but not trees
+        keys = {os.path.normpath(w.replace("\\", "/").lstrip("/")): m["kind"] for w, m in zip(want_names, members)}
+        for k in list(keys):
+            parts = k.split("/")
+            for i in range(1, len(parts)):
+                anc = "/".join(parts[:i])
+                if anc in keys and keys[anc] != "dir":
+                    dup = True
+        if len(keys) != len(want_names):
+            dup = True
     if not risky and not dup:
         if "tree_error" in got:
             diffs.append("extractall(path) raised " + got["tree_error"])
